@@ -119,6 +119,7 @@ def parse_obs(path):
             elif t == 'QUIET': blk['quiet'] = f[1] == '1'
             elif t == 'QUIET2': blk['quiet2'] = f[1] == '1'
             elif t == 'WF': blk['wf'] = f[1] == '1'
+            elif t == 'PROBE': blk['probe'] = [tuple(x.split('=')) for x in f[1:]]
     return hs
 
 # ---------------------------------------------------------------- helpers over a history
@@ -559,6 +560,13 @@ def oracle_C18(hi, ops, obs):
 def oracle_C01(hi, ops, obs):
     out = []
     for j, b in enumerate(obs):
+        # probes (harness Observe): the gated messages handed to the message router with module accounts and a fresh
+        # address as senders, on a discarded branch of the committed state — none of them is the admin
+        for (who, res) in (b.get('probe') or []):
+            if res != 'poa:3':
+                out.append(Viol(hi, b['h'], 'probe-not-refused', f"{who} -> {res} (expected not-an-authority)"))
+                break
+        if out: break
         if j == 0 or (b['halt'] and not b['txr']): continue
         ob = ops['blocks'][j-1]
         prev = obs[j-1]
